@@ -31,6 +31,7 @@ func VP_C16_frame() {
 	ref = append(ref, payload...)
 	ref = append(ref, 0, 0)
 	out := *a.out
+	vp.Observe("frame", out)
 	vp.Assert(len(out) == len(ref), "frame length")
 	for i := range ref {
 		vp.Assert(out[i] == ref[i], "frame bytes == little-endian reference layout")
